@@ -778,7 +778,7 @@ class G:
             t = self.pick([MI, Z, BOOL] + ([STR] if self.has("string") else []) + ([LIST] if self.has("list") else []))
             main.append(("print", t, self.expr(t, 3, [frame])))
         if p.abnormal and self.chance(15):
-            kind = self.pick(["throw", "assert", "never", "error"] if (self.excs and not p.java) else ["assert", "never", "error"])
+            kind = self.pick(["throw", "assert", "never", "error"] if (self.excs and not p.java) else (["never", "error"] if p.java else ["assert", "never", "error"]))
             pos = self.int(len(main) // 2, len(main))
             if kind == "throw":
                 main.insert(pos, ("throw", self.pick(self.excs)))
